@@ -181,7 +181,9 @@ class Index:
         self.yieldfroms = canon.desugar_yield_from(self)
         self.enumerates = canon.desugar_enumerate_idioms(self)
         self.replicated = canon.desugar_replicated_unpack(self)
+        self.update_generators = canon.desugar_update_generators(self)
         self.unrolled_tables = canon.unroll_literal_tables(self)
+        self.enum_constants = canon.fold_enum_constants(self)
         self.memos = canon.inline_local_memos(self)
         self.keyed_tables = canon.inline_keyed_tables(self)
         self.zero_width_guards = canon.drop_zero_width_guards(self)
